@@ -21,7 +21,8 @@ from simkit.providers import CTX, QUERY_METHODS
 from simkit.simchain import View
 
 URL = 'http://esp%d.sim.invalid/api/'
-HARD = ['status_500', 'status_429', 'status_404', 'status_503_html', 'timeout', 'conn_error']
+HARD = ['status_500', 'status_429', 'status_404', 'status_503_html', 'timeout', 'conn_error', 'status_204', 'status_202',
+        'status_302']
 SOFT = ['html_200', 'truncated_json', 'json_null', 'json_error_object', 'empty_body']
 FLAVORS = HARD + SOFT
 
@@ -40,6 +41,9 @@ HTTP = HttpState()
 class FakeResponse:
     def __init__(self, status, body, binary=False):
         self.status_code = status
+        self.ok = status < 400          # as requests.Response.ok
+        self.reason = ''
+        self.headers = {}
         if binary:
             self.content = body
             self.text = body.decode('latin1')
@@ -263,11 +267,12 @@ class FakeRequests:
                 w.clock.advance(plan.get('timeout_s', 5))
                 raise real_requests.exceptions.ReadTimeout('simulated: read timed out')
             raise real_requests.exceptions.ConnectionError('simulated: connection refused')
-        if flavor in ('status_500', 'status_429', 'status_404', 'status_503_html'):
+        if flavor in ('status_500', 'status_429', 'status_404', 'status_503_html', 'status_204', 'status_202', 'status_302'):
             self._fired(plan, flavor, pid, path)
             code = int(flavor.split('_')[1])
             body = '<html><body><h1>503 Service Temporarily Unavailable</h1></body></html>' if 'html' in flavor \
-                else {500: 'Internal Server Error', 429: 'Too Many Requests', 404: 'Not Found'}[code]
+                else {500: 'Internal Server Error', 429: 'Too Many Requests', 404: 'Not Found', 204: '', 202: 'Accepted',
+                      302: ''}[code]
             return FakeResponse(code, body)
         try:
             val = serve(pid, method, path, post_data, view, plan.get('blank', False))
